@@ -39,10 +39,11 @@ def parseEv (line : String) : Option Ev :=
   match (line.trimAscii.toString.splitOn " ").filter (· ≠ "") with
   | "control" :: r :: vals => do
       some (.control (← parseRate r) (← vals.mapM parseRat))
-  | "atom" :: cls :: r :: dce :: multi :: nOut :: isU :: wf :: chk :: args => do
+  | "atom" :: cls :: r :: dce :: multi :: nOut :: isU :: wf :: ret :: chk :: args => do
       some (.atom { cls := cls, rate := ← parseRate r, dce := dce == "1", multi := multi == "1",
                     nOut := ← nOut.toNat?, isUGen := isU == "1", widthFirst := wf == "1",
-                    check := ← parseCheck chk } (← args.mapM parseArg))
+                    ret := ret == "1", check := ← parseCheck chk } (← args.mapM parseArg))
+  | ["localbuf", fr, ch] => do some (.localbuf (← parseArg fr) (← parseArg ch))
   | "out" :: cls :: mode :: bus :: chans => do
       let m ← match mode with | "ar" => some OutMode.ar | "kr" => some .kr | "auto" => some .auto | _ => none
       some (.out cls m (← parseArg bus) (← chans.mapM parseArg))
